@@ -18,6 +18,8 @@ def run(ctx):
     iterators(ctx, "R2")
     unescape(ctx, "R3")
     chain(ctx, "R4")
+    html_model(ctx, "R5")
+    links_model(ctx, "R6")
 
 
 def twins(ctx, rule):
@@ -118,16 +120,6 @@ def iterators(ctx, rule):
                 ctx.ob(rule, "bytes-twin/no-implicit-%s-on-raw-bytes" % node.func.attr, False,
                        "the bytes iterator calls .%s() on raw bytes: it only knows ASCII whitespace/case while the str iterator uses Unicode semantics (href padded with U+00A0 / U+3000)" % node.func.attr,
                        um.site(node), witness='<a href="http://lemonde.fr/café ">')
-    # scripts removed first, groups 1,2,3
-    for fn in (fs, fb):
-        body = fn.body
-        first = body[0]
-        ok = isinstance(first, ast.Assign) and "SCRIPT_TAG" in unparse(first.value) and ".sub(" in unparse(first.value)
-        ctx.ob(rule, "%s/script-blocks-removed-first" % fn.name.lstrip("_"), ok, "%s does not remove script blocks before looking for anchors" % fn.name, um.site(fn), witness="<script><a href=x></script>")
-        groups = [c.args[0].value for c in ast.walk(fn) if isinstance(c, ast.Call) and isinstance(c.func, ast.Attribute) and c.func.attr == "group" and c.args and isinstance(c.args[0], ast.Constant)]
-        ctx.ob(rule, "%s/groups-1-2-3" % fn.name.lstrip("_"), groups == [1, 2, 3], "%s reads the groups %s of the anchor pattern" % (fn.name, groups), um.site(fn))
-        ys = [n for n in ast.walk(fn) if isinstance(n, ast.Yield)]
-        ctx.ob(rule, "%s/one-yield-per-match" % fn.name.lstrip("_"), len(ys) == 1, "%s yields %d times per anchor" % (fn.name, len(ys)), um.site(fn))
     dec = [c for c in ast.walk(fb) if isinstance(c, ast.Call) and isinstance(c.func, ast.Attribute) and c.func.attr == "decode"]
     ok = len(dec) == 1 and unparse(dec[0].args[0] if dec[0].args else None) == "encoding" and any(kw.arg == "errors" and unparse(kw.value) == "errors" for kw in dec[0].keywords)
     ctx.ob(rule, "bytes-twin/decodes-with-caller-encoding", ok, "the bytes iterator does not decode with (encoding, errors=errors)", um.site(fb))
@@ -159,132 +151,8 @@ def unescape(ctx, rule):
 
 
 def chain(ctx, rule):
-    ctx.rule(rule, "links_from_html filter chain (CFG): the single yield is dominated, in this order, by: non-empty test; should_follow_href; resolution by urljoin(base_url, .) only for hrefs without protocol; is_url(require_protocol, tld_aware, only_http_https all True); canonicalize_url of exactly that value when requested, with the same options as the base url's canonicalisation; inequality with the base; already_seen test-then-add on the yielded value; should_follow_href's protocol pattern equals patterns.HTTP_PROTOCOL_RE")
+    ctx.rule(rule, "should_follow_href: its protocol pattern has the language of patterns.HTTP_PROTOCOL_RE (what is_url(only_http_https) accepts), and, interpreted over href classes, it rejects empty / fragment-only / non-http(s)-scheme hrefs and accepts relative, protocol-relative and http(s) ones (the filter chain of links_from_html itself is decided by the model table R6)")
     repo = ctx.repo
-    lm = repo.mod("links_from_html")
-    ref = lm.func("links_from_html")
-    ctx.fn(ref.qualname)
-    fn = ref.node
-    g = CFG(fn)
-    site = lm.site(fn)
-    ys = [n for n in g.nodes if n.kind == "stmt" and isinstance(n.ast, ast.Expr) and isinstance(n.ast.value, ast.Yield)]
-    ctx.ob(rule, "single-yield", len(ys) == 1 and isinstance(ys[0].ast.value.value, ast.Name), "links_from_html does not yield one variable at one site", site)
-    if len(ys) != 1 or not isinstance(ys[0].ast.value.value, ast.Name):
-        return
-    y = ys[0]
-    var = y.ast.value.value.id
-
-    def test_with(pred):
-        return [n for n in g.nodes if n.kind == "test" and pred(n.ast)]
-
-    def dominated_on(label, tests, what, witness):
-        # every path entry -> yield passes one of `tests` through its `label` edge
-        seen = set()
-        stack = [g.entry]
-        ok = True
-        while stack:
-            n = stack.pop()
-            if n.id in seen:
-                continue
-            seen.add(n.id)
-            if n is y:
-                ok = False
-                break
-            for lab, s in n.succ:
-                if n in tests and lab == label:
-                    continue
-                stack.append(s)
-        ctx.ob(rule, "yield-dominated-by/" + what, ok and bool(tests), "links_from_html can yield a link without %s" % what, site, witness=witness)
-
-    src = lambda t: unparse(t).replace(" ", "")
-    dominated_on("false", test_with(lambda t: src(t) == "not" + var or src(t) == "not%s" % var), "the empty-href test", '<a href="">')
-    dominated_on("false", test_with(lambda t: src(t) == "notshould_follow_href(%s)" % var), "should_follow_href", '<a href="mailto:x@y.z">')
-    isurl = test_with(lambda t: isinstance(t, ast.UnaryOp) and isinstance(t.operand, ast.Call) and isinstance(t.operand.func, ast.Name) and t.operand.func.id == "is_url")
-    dominated_on("false", isurl, "is_url", '<a href="http://a.notatld/x">')
-    for n in isurl:
-        c = n.ast.operand
-        kws = {kw.arg: kw.value for kw in c.keywords}
-        for k in ("require_protocol", "tld_aware", "only_http_https"):
-            v = kws.get(k)
-            ctx.ob(rule, "is_url/%s=True" % k, isinstance(v, ast.Constant) and v.value is True, "links_from_html calls is_url with %s=%s" % (k, unparse(v) if v else "default"), lm.site(c), witness='<a href="ftp://a.com/x">')
-        ctx.ob(rule, "is_url/tests-the-link", c.args and isinstance(c.args[0], ast.Name) and c.args[0].id == var, "links_from_html validates another value than the link", lm.site(c))
-    dominated_on("false", test_with(lambda t: src(t) in ("%s==base_url" % var, "base_url==%s" % var)), "the self-link test", '<a href="">')
-    # urljoin only without protocol
-    joins = [n for n in ast.walk(fn) if isinstance(n, ast.Assign) and isinstance(n.value, ast.Call) and isinstance(n.value.func, ast.Name) and n.value.func.id == "urljoin"]
-    ctx.ob(rule, "relative-href-resolved", len(joins) == 1, "links_from_html does not resolve relative hrefs with urljoin", site, witness='<a href="/x">')
-    for j in joins:
-        ok = [unparse(a) for a in j.value.args] == ["base_url", var] and isinstance(j.targets[0], ast.Name) and j.targets[0].id == var
-        ctx.ob(rule, "urljoin(base_url, href)", ok, "links_from_html resolves with `%s`" % unparse(j.value), lm.site(j))
-        guard = _enclosing_tests(fn, j)
-        # the guard, interpreted on href classes: relative and protocol-relative hrefs are joined, absolute ones are not
-        from ..microeval import _Interp
-        classes = [("/x", True), ("x.html", True), ("?q=1", True), ("//other.fr/x", True), ("http://a.fr/x", False), ("HTTPS://a.fr", False), ("ftp://a.fr", False)]
-        for href, want in classes:
-            try:
-                got = True
-                for t, pol in guard:
-                    v = bool(_Interp(repo, lm, {var: href}, 0).expr(t))
-                    if v != pol:
-                        got = False
-            except Unknown as e:
-                ctx.undecided(rule, "urljoin guard not interpretable: %s" % e)
-                break
-            ctx.ob(rule, "urljoin-guard/%s" % href, got == want,
-                   "links_from_html %s the href %r with the base url (guard `%s`)%s" % ("does not join" if want else "joins", href, " and ".join(unparse(t) for t, p in guard), ": a protocol-relative href is dropped instead of being resolved" if href.startswith("//") else ""),
-                   lm.site(j), witness='<a href="%s">' % href)
-    # canonicalisation: sibling call sites agree on options
-    canon = [c for c in ast.walk(fn) if isinstance(c, ast.Call) and isinstance(c.func, ast.Name) and c.func.id == "canonicalize_url"]
-    ctx.ob(rule, "canonicalize/two-sites", len(canon) == 2, "links_from_html canonicalises at %d sites (base url and link expected)" % len(canon), site)
-    if len(canon) == 2:
-        kws = [sorted((kw.arg, unparse(kw.value)) for kw in c.keywords) for c in canon]
-        ctx.ob(rule, "canonicalize/sibling-sites-same-options", kws[0] == kws[1],
-               "the base url is canonicalised with %s but the links with %s: with strip_fragment the page's own url is no longer recognised as a self-link" % (kws[0], kws[1]), lm.site(canon[0]),
-               witness="base https://a.fr/i.html#top, href i.html, canonicalize=True, strip_fragment=True")
-        args = [unparse(c.args[0]) for c in canon]
-        ctx.ob(rule, "canonicalize/arguments", sorted(args) == sorted(["base_url", var]), "canonicalize_url is applied to %s" % args, site)
-        for c in canon:
-            st = [n for n in ast.walk(fn) if isinstance(n, ast.Assign) and n.value is c]
-            guard = _enclosing_tests(fn, st[0]) if st else []
-            ok = any(src(t) == "canonicalize" and pol for t, pol in guard)
-            ctx.ob(rule, "canonicalize/only-when-requested/%s" % unparse(c.args[0]), ok, "canonicalize_url(%s) is not guarded by `if canonicalize`" % unparse(c.args[0]), lm.site(c))
-            ctx.ob(rule, "canonicalize/result-rebinds-same-name/%s" % unparse(c.args[0]), bool(st) and isinstance(st[0].targets[0], ast.Name) and st[0].targets[0].id == unparse(c.args[0]), "the canonical form is not stored back into `%s`" % unparse(c.args[0]), lm.site(c))
-    # order: should_follow < urljoin < is_url < canonicalize(link) < self-link test < unique < yield   (program order on the CFG)
-    # the "already seen" set: a local bound to set() that receives .add(<yielded variable>)
-    seen_sets = [n.targets[0].id for n in ast.walk(fn) if isinstance(n, ast.Assign) and isinstance(n.targets[0], ast.Name) and isinstance(n.value, ast.Call) and isinstance(n.value.func, ast.Name) and n.value.func.id == "set" and not n.value.args]
-    seen_name = None
-    for c in ast.walk(fn):
-        if isinstance(c, ast.Call) and isinstance(c.func, ast.Attribute) and c.func.attr == "add" and isinstance(c.func.value, ast.Name) and c.func.value.id in seen_sets:
-            seen_name = c.func.value.id
-    if seen_name is None:
-        seen_name = seen_sets[0] if seen_sets else "already_seen"
-
-    def first(pred):
-        xs = [n for n in g.nodes if n.ast is not None and pred(n)]
-        return xs[0] if xs else None
-    seq = [
-        ("should_follow_href", first(lambda n: n.kind == "test" and "should_follow_href" in unparse(n.ast))),
-        ("urljoin", first(lambda n: n.kind == "stmt" and "urljoin(" in unparse(n.ast))),
-        ("is_url", first(lambda n: n.kind == "test" and "is_url(" in unparse(n.ast))),
-        ("canonicalize link", first(lambda n: n.kind == "stmt" and "canonicalize_url(%s" % var in unparse(n.ast))),
-        ("self-link test", first(lambda n: n.kind == "test" and "base_url" in unparse(n.ast) and "==" in unparse(n.ast))),
-        ("already_seen test", first(lambda n: n.kind == "test" and seen_name in {x.id for x in ast.walk(n.ast) if isinstance(x, ast.Name)})),
-        ("yield", y),
-    ]
-    for (na, a), (nb, b) in zip(seq, seq[1:]):
-        if a is None or b is None:
-            ctx.ob(rule, "order/%s<%s" % (na, nb), False, "links_from_html lacks the step '%s'" % (na if a is None else nb), site)
-            continue
-        ok = g.reachable(a, b, cross_back_edges=False) and not g.reachable(b, a, cross_back_edges=False)
-        ctx.ob(rule, "order/%s<%s" % (na, nb), ok, "links_from_html performs '%s' after '%s'" % (na, nb), lm.site(b.ast))
-    # unique: test-then-add on the yielded variable
-    adds = [c for c in ast.walk(fn) if isinstance(c, ast.Call) and isinstance(c.func, ast.Attribute) and c.func.attr == "add" and unparse(c.func.value) == seen_name]
-    ok = len(adds) == 1 and unparse(adds[0].args[0]) == var
-    ctx.ob(rule, "unique/adds-the-yielded-link", ok, "already_seen does not record the yielded link", site)
-    tests = [n for n in g.nodes if n.kind == "test" and src(n.ast) == "%sin%s" % (var, seen_name)]
-    ctx.ob(rule, "unique/tests-membership", len(tests) == 1, "links_from_html does not test `%s in %s`" % (var, seen_name), site)
-    for t in tests:
-        guard = _enclosing_tests(fn, [x for x in ast.walk(fn) if isinstance(x, ast.If) and x.test is t.ast][0])
-        ctx.ob(rule, "unique/only-when-requested", any(src(tt) == "unique" and pol for tt, pol in guard), "the duplicate filter is not guarded by `if unique`", site)
     # should_follow_href
     sm = repo.mod("should_follow_href")
     r1 = repo.const(sm, "HTTP_PROTOCOL_RE")
@@ -308,3 +176,150 @@ def chain(ctx, rule):
             ctx.undecided(rule, "should_follow_href(%r): %s" % (href, e))
             continue
         ctx.ob(rule, "should_follow_href/%s" % (href or "<empty>"), got == exp, "should_follow_href(%r) is %s, expected %s" % (href, got, exp), sm.site(sref.node), witness=href)
+
+
+# ----------------------------------------------------------------------
+# model tables
+# ----------------------------------------------------------------------
+HTML_CELLS = [
+    # (document, hrefs expected from urls_from_html)
+    ('<a href="http://a.fr/x">1</a>', ["http://a.fr/x"]),
+    ("<a href='/y'>1</a> <A HREF=z.html>2</A> <a class=\"c\" href=\"w\" id=i>3</a>", ["/y", "z.html", "w"]),
+    ('<a href="  /pad ">1</a><a href=\'\t/tab\n\'>2</a>', ["/pad", "/tab"]),
+    ('<a href=" /nbsp　">1</a><a href=\' /em\'>2</a>', ["/nbsp", "/em"]),
+    ('<a href="/a?x=1&amp;y=2">1</a><a href="/q?t=&#39;&eacute;">2</a>', ["/a?x=1&y=2", "/q?t='é"]),
+    ('<a href="/café">1</a>', ["/café"]),
+    ('<a href="/1">1</a><script>var s = "<a href=\'/no\'>";</script><a href="/2">2</a>', ["/1", "/2"]),
+    ('<script type="text/javascript">a</script><a href="/between">x</a><SCRIPT>document.write("<a href=/no2>")</SCRIPT><a href="/after">y</a>', ["/between", "/after"]),
+    ('<script>1</script><script>2</script><a href="/3">3</a><script></script>', ["/3"]),
+    ('<SCRIPT>document.write("<a href=/no3>")</SCRIPT><a href="/only">x</a><Script>"<a href=\'/no4\'>"</Script>', ["/only"]),
+    ('<a name="n">no href</a><a data-x="1">no</a><p href="/p">no</p>', []),
+    ('<a href="">empty</a><a href="#top">frag</a>', ["", "#top"]),
+    ('<a href="/dup">1</a><a href="/dup">2</a>', ["/dup", "/dup"]),
+]
+
+LINK_HREFS = [
+    "http://b.fr/x", "HTTPS://b.fr/y", "z.html", "/abs", "?q=1", "#top", "mailto:a@b.fr", "javascript:void(0)", "ftp://b.fr/x",
+    "//cdn.b.fr/lib.js", "//cdn.b.notatld/lib.js", "http://b.notatld/x", "", "i.html", "z.html", "i.html#top", "sub/",
+]
+LINK_BASE = "http://a.fr/dir/i.html"
+LINK_BASES = (LINK_BASE, LINK_BASE + "#top")
+GOOD_TLDS = ("fr", "com")
+
+
+def _ref_links(base, hrefs, canonicalize, unique, strip_fragment):
+    """the documented filter chain, written from the property statement"""
+    from urllib.parse import urljoin, urlsplit
+    canon = lambda u: _canon_marker(u, strip_fragment)
+    if canonicalize:
+        base = canon(base)
+    out = []
+    seen = set()
+    for h in hrefs:
+        h = h.strip()
+        if not h or h.startswith("#"):
+            continue
+        m = re.match(r"^([A-Za-z][A-Za-z0-9+.-]*):", h)
+        if m and not re.match(r"^https?://", h, re.I):
+            continue
+        u = h if re.match(r"^https?://", h, re.I) else urljoin(base, h)
+        sp = urlsplit(u)
+        if sp.scheme.lower() not in ("http", "https") or not sp.hostname or sp.hostname.rsplit(".", 1)[-1] not in GOOD_TLDS:
+            continue
+        if canonicalize:
+            u = canon(u)
+        if u == base:
+            continue
+        if unique:
+            if u in seen:
+                continue
+            seen.add(u)
+        out.append(u)
+    return out
+
+
+def _canon_marker(u, strip_fragment=False):
+    """stand-in for canonicalize_url in the model: idempotent, visible, keeps the url a url"""
+    if strip_fragment:
+        u = u.split("#", 1)[0]
+    if ";c" in u:
+        return u
+    head, sep, frag = u.partition("#")
+    return head + ";c" + sep + frag
+
+
+def html_model(ctx, rule):
+    ctx.rule(rule, "model tables: urls_from_html, interpreted (finite-domain interpreter) on one document per class {double / single / no quotes, upper-case tag, other attributes, ASCII and Unicode padding, entities, non-ASCII text, anchors inside one or several script blocks and between them, tags without href, empty href, repeated href}, yields the expected hrefs in document order, identically for the str document and its UTF-8 bytes")
+    from ..microeval import run_function, Raised
+    repo = ctx.repo
+    um = repo.mod("urls_from_html")
+    ref = um.func("urls_from_html")
+    ctx.fn(ref.qualname)
+    site = um.site(ref.node)
+    n = 0
+    for doc, exp in HTML_CELLS:
+        for form, arg in (("str", doc), ("bytes", doc.encode("utf-8"))):
+            n += 1
+            try:
+                got = list(run_function(repo, ref, [arg]))
+            except Raised as e:
+                got = "raises %s" % e.name
+            except Unknown as e:
+                ctx.undecided(rule, "urls_from_html(%s %r): %s" % (form, doc[:40], e))
+                continue
+            ctx.ob(rule, "urls_from_html/%s/%s" % (form, doc[:48]), got == exp,
+                   "urls_from_html(%s document %r) yields %r, expected %r" % (form, doc, got, exp), site, witness=doc, sample="%s -> %r" % (form, got))
+    ctx.require_instances(rule, n, 2 * len(HTML_CELLS), "(document, str/bytes) cells")
+
+
+def links_model(ctx, rule):
+    ctx.rule(rule, "model tables: links_from_html, interpreted on a document holding one href per class {absolute http(s), upper-case scheme, relative, root-relative, query-only, fragment-only, mailto, javascript, ftp, protocol-relative with valid / invalid TLD, absolute with invalid TLD, empty, self link, duplicate, self link with fragment, directory} for the 8 settings of canonicalize / unique / strip_fragment and for str / bytes, yields exactly what the documented filter chain yields (canonicalize_url replaced by a visible idempotent marker, has_valid_tld by a two-TLD reference; is_url, should_follow_href and urljoin as they are)")
+    from ..microeval import run_function, Raised, Native
+    from urllib.parse import urlsplit
+    repo = ctx.repo
+    lm = repo.mod("links_from_html")
+    ref = lm.func("links_from_html")
+    ctx.fn(ref.qualname)
+    site = lm.site(ref.node)
+    doc = "".join('<a href="%s">x</a>\n' % h for h in LINK_HREFS)
+
+    def ref_tld(url):
+        try:
+            host = (url.hostname if hasattr(url, "hostname") else urlsplit(url if "//" in url else "http://" + url).hostname) or ""
+        except ValueError:
+            return False
+        return host.rsplit(".", 1)[-1].lower() in GOOD_TLDS
+
+    repo.overrides = {
+        "ural.canonicalize_url.canonicalize_url": Native(lambda u, strip_fragment=False, **kw: _canon_marker(u, strip_fragment)),
+        "ural.tld.has_valid_tld": Native(ref_tld),
+    }
+    n = 0
+    try:
+      for LINK_BASE in LINK_BASES:
+        for canonicalize in (False, True):
+            for unique in (False, True):
+                for strip_fragment in (False, True):
+                    exp = _ref_links(LINK_BASE, LINK_HREFS, canonicalize, unique, strip_fragment)
+                    for form, arg in (("str", doc), ("bytes", doc.encode("utf-8"))):
+                        n += 1
+                        kw = {"canonicalize": canonicalize, "unique": unique, "strip_fragment": strip_fragment}
+                        try:
+                            got = list(run_function(repo, ref, [LINK_BASE, arg], dict(kw)))
+                        except Raised as e:
+                            got = "raises %s" % e.name
+                        except Unknown as e:
+                            ctx.undecided(rule, "links_from_html(%r): %s" % (kw, e))
+                            continue
+                        what = ",".join("%s=%s" % (k[:5], int(v)) for k, v in sorted(kw.items()))
+                        diff = ""
+                        if isinstance(got, list) and got != exp:
+                            extra = [x for x in got if x not in exp]
+                            missing = [x for x in exp if x not in got]
+                            diff = " (unexpected: %r; missing: %r)" % (extra, missing)
+                        ctx.ob(rule, "links_from_html/%s/%s/%s" % ("base#frag" if "#" in LINK_BASE else "base", form, what), got == exp,
+                               "links_from_html(%r, <one href per class>, %s) on a %s document yields %r, the documented chain yields %r%s" % (LINK_BASE, what, form, got, exp, diff),
+                               site, witness=doc[:200], sample="%s %s -> %d links" % (form, what, len(got) if isinstance(got, list) else -1))
+    finally:
+        repo.overrides = {}
+    ctx.require_instances(rule, n, 32, "(base, options, str/bytes) cells")
